@@ -249,7 +249,19 @@ pub mod rust_log_ref_finder
                              * A key may be written as a string literal ("ref" = 5); for the
                              * log crate that is the same key.
                              */
-                            if kvp_key.as_str().trim().trim_matches('"') == ref_kvp_key
+                            let key_text = kvp_key.as_str();
+                            let key_name = match key_text.strip_prefix('"')
+                            {
+                                /*
+                                 * The span of a string-literal key may run on into the layout
+                                 * (white space, comments) in front of its '=': the name is what
+                                 * stands between the quotes.
+                                 */
+                                Some(rest) => rest.split('"').next().unwrap_or(rest),
+                                None => key_text,
+                            };
+
+                            if key_name == ref_kvp_key
                             {
                                 match kvp_value
                                 {
